@@ -1,5 +1,6 @@
 """C02 — phonons equal the lattice Fourier sum (C kernels of c/dynmat.c; Python path; lemmas)."""
 from contracts import c_dynmat as D
+from contracts import py_svecs as PS
 
 
 def build(run):
@@ -15,3 +16,5 @@ def build(run):
     atq = D.dynmat_at_q_contract()
     run.verify_c([D.dynmat_want_contract()], registry={"get_q_cart": qc, "get_dielectric_part": dp, "dym_get_charge_sum": cs,
                                                         "dym_get_dynamical_matrix_at_q": atq})
+    # the phase uses the shortest vectors in primitive-cell coordinates: the change of coordinates keeps the Cartesian vector
+    PS.primitive_svecs_transform(run)
